@@ -615,7 +615,7 @@ where
 	// greedy. But if max_outputs(500) is actually not enough to cover the whole
 	// amount, the wallet should allow going over it to satisfy what the user
 	// wants to send. So the wallet considers max_outputs more of a soft limit.
-	if eligible.len() > max_outputs {
+	if max_outputs > 0 && eligible.len() > max_outputs {
 		for window in eligible.windows(max_outputs) {
 			let windowed_eligibles = window.to_vec();
 			if let Some(outputs) = select_from(amount, select_all, windowed_eligibles) {
